@@ -3105,16 +3105,23 @@ def _memo_invalidation_for(ctx, fi):
         return any(refers(meths[c], attr, seen + (m.node.name,)) for c in self_calls(m) if c not in seen and c != m.node.name)
 
     def lacking(attr):
-        out = []
+        out, writers = [], 0
         for n, m in sorted(meths.items()):
             if m is fi or n in ("__init__", "__new__") or n == getattr(fi.node, "name", None):
                 continue
             try:
-                if writes_state(m) and not refers(m, attr):
-                    out.append(n)
+                if writes_state(m):
+                    if any(isinstance(x, ast.Attribute) and x.attr == attr and isinstance(x.ctx, ast.Store) for x in ast.walk(m.node)) and not any(
+                            isinstance(x, ast.Attribute) and isinstance(x.ctx, ast.Store) and x.attr != attr and isinstance(x.value, ast.Name) and x.value.id == "self" for x in ast.walk(m.node)):
+                        continue            # a method that only maintains the memo itself
+                    writers += 1
+                    if not refers(m, attr):
+                        out.append(n)
             except RecursionError:
                 continue
-        return out
+        # a class none of whose other methods changes its state: what the memo depends on is changed from OUTSIDE (the
+        # transaction a checker holds), and no method could invalidate it -- the coverage says nothing then
+        return out if writers else None
     return lacking
 
 
@@ -3154,11 +3161,24 @@ def stale_memo(sm, new_locs):
         stores = [it for it in sm.items if it.kind == "effect" and (it.head.startswith(loc + " = ") or it.head.startswith(loc + "[") or it.head.startswith("call %s." % loc))]
         if not stores:
             continue
+        fn0_ = getattr(getattr(sm, "w", None), "node", None)
+        params_all = [a.arg for a in fn0_.args.posonlyargs + fn0_.args.args + fn0_.args.kwonlyargs if a.arg not in ("self", "cls", "class_")] if isinstance(fn0_, (ast.FunctionDef, ast.AsyncFunctionDef)) else []
         computed_from = set()
         for it in stores:
             v = it.head.split(" = ", 1)[1] if " = " in it.head and not it.head.startswith("call ") else it.head
             v = v.split(" in loop")[0].split(" after ")[0]
             from_value = state_reads(v, {loc})
+            # the result of calling a callable that was handed in (a bound method passed as `compute`, `fn`): what it reads is
+            # not visible here, and a bound method reads its object's state
+            for p_ in params_all:
+                if re.search(r"(?<![\w.])%s\(" % re.escape(p_), v.split(" = ", 1)[-1] if " = " in v else v):
+                    from_value = from_value | {"<what the callable `%s` reads>" % p_}
+            if re.search(r"(?<![\w.])_v\d+\b", v.split(" = ", 1)[-1] if " = " in v else v):
+                # the value is built in a local (a stream, a list) by loops that run when the memo is filled: what those loops
+                # range over is what the value is computed from
+                for it2 in sm.items:
+                    if it2.kind == "loop-iter" and " in " in it2.head:
+                        from_value = from_value | state_reads(it2.head.split(" in ", 1)[1], {loc})
             computed_from |= from_value
             if not from_value and (it.head.startswith("call %s." % loc) or re.fullmatch(r"\s*(True|False|None|-?\d+|'[^']*'|b'[^']*')\s*", v.split(" = ", 1)[-1] if " = " in v else v)):
                 # a flag: what it records is the condition under which it is set
@@ -3179,7 +3199,8 @@ def stale_memo(sm, new_locs):
         if arg_dep:
             miss_ = f_or(*[it.cond for it in stores])
             for it in sm.items:
-                if it.kind != "exit" or not it.head.startswith("return ") or not mentions(it.head):
+                # where the kept value is USED: handed out by an exit, or handed on to a call / a stream
+                if it in stores or not mentions(it.head) or not ((it.kind == "exit" and it.head.startswith("return ")) or (it.kind == "effect" and it.head.startswith("call "))):
                     continue
                 hit_ = f_and(it.cond, f_not(miss_)) if miss_ not in (True, False) else it.cond
                 if hit_ is False or not _sat_formula(hit_):
@@ -3257,15 +3278,16 @@ def stale_memo(sm, new_locs):
                     break
         # the memo gates WORK (a lookup is skipped when the key is in a set of known misses) rather than the value handed out: the tests
         # about it read nothing but the memo, and some method that changes the object's state never refers to it
-        if not any(loc in o_ for o_ in out) and MEMO_INVALIDATION is not None and computed_from:
-            lacking = MEMO_INVALIDATION(attr)
+        if not any(loc in o_ for o_ in out) and computed_from:
+            lacking = MEMO_INVALIDATION(attr) if MEMO_INVALIDATION is not None else None
             a_atoms = set()
             for it in sm.items:
                 if it.cond not in (True, False):
                     a_atoms |= {a for a in gi.f_opaques(it.cond) if isinstance(a, str) and mentions(a)}
-            if lacking and a_atoms and not any(state_reads(hide(a), {loc}) for a in a_atoms):
-                out.append("whether %s does its state-dependent work (%s) is decided by tests that read only the memo (`%s`), and %s change%s the object's state without referring to it: after such a call the remembered answer is served as if nothing had changed"
-                           % (getattr(fn_, "name", "the function"), ", ".join(sorted(computed_from))[:70], sorted(a_atoms)[0][:60], ", ".join(lacking[:4]), "s" if len(lacking) == 1 else ""))
+            if (lacking is None or lacking) and a_atoms and not any(state_reads(hide(a), {loc}) for a in a_atoms):
+                who = ("%s change%s the object's state without referring to it" % (", ".join(lacking[:4]), "s" if len(lacking) == 1 else "")) if lacking else "nothing in the class resets it when that state changes"
+                out.append("whether %s does its state-dependent work (%s) is decided by tests that read only the memo (`%s`), and %s: the remembered result is used as if nothing had changed"
+                           % (getattr(fn_, "name", "the function"), ", ".join(sorted(computed_from))[:70], sorted(a_atoms)[0][:60], who))
     return out
 
 
